@@ -89,9 +89,11 @@ PROPS = {
     # midnight), the readers invert it on the whole stored domain (calendar objects through observer functions and
     # assumed constructor contracts); decimal WRITERS: the bytes are the two's complement of the unscaled integer
     # (-1)**sign * digits * 10**(exponent + scale), ValueError when precision / scale / size cannot hold the number;
-    # timestamps, uuid and read_decimal are bounded
-    "C16": dict(functions=[("fastavro/_logical_writers_py.py", r"prepare_(time_millis|time_micros|date|bytes_decimal|fixed_decimal)", "default"),
-                           ("fastavro/_logical_readers_py.py", r"read_(time_millis|time_micros|date)", "default")],
+    # timestamps: whole units from the epoch to the instant (aware, any offset) / to the wall-clock reading (naive, local
+    # variants), read back in UTC / naive -- datetime arithmetic through assumed contracts of the library;
+    # uuid and read_decimal are bounded
+    "C16": dict(functions=[("fastavro/_logical_writers_py.py", r"prepare_(time_millis|time_micros|date|bytes_decimal|fixed_decimal|timestamp_millis|timestamp_micros|local_timestamp_millis|local_timestamp_micros)", "default"),
+                           ("fastavro/_logical_readers_py.py", r"read_(time_millis|time_micros|date|timestamp_millis|timestamp_micros|local_timestamp_millis|local_timestamp_micros)", "default")],
                 lemmas=["time_millis_roundtrip", "time_micros_roundtrip", "time_millis_onto", "time_micros_onto",
                         "pow2_step", "pow2_mono", "pow10_pos", "digit_at", "tnth_left", "digits_prefix", "zeros_len", "digits_zeros"],
                 bounded="C16", level="exploration"),
